@@ -4,7 +4,7 @@
        function (RoleManagerImpl and DomainManager);
    (c) with a matching function: HasLink = bounded reachability in the stored links closed
        under pattern matching over the registered names; refuted statements with witnesses. *)
-From Coq Require Import List String Bool Arith Lia.
+From Coq Require Import List String Ascii Bool Arith Lia.
 Import ListNotations.
 From Casbin Require Import Base BaseProofs Roles RolesProofs RoleGraph.
 
@@ -2289,3 +2289,88 @@ Proof.
   induction ops as [|op t IH]; intros dm D; cbn [drun fold_left]; [exact D|]. apply IH. apply dstep_DWF. exact D.
 Qed.
 End WithMatching.
+
+(* ================= concrete witnesses (computed) ================= *)
+Local Open Scope string_scope.
+
+(* util.KeyMatch as a matching function: the pattern up to its first star is a prefix *)
+Fixpoint kmatch (s p : string) : bool :=
+  match p with
+  | EmptyString => match s with EmptyString => true | _ => false end
+  | String c p' => if Ascii.eqb c "*"%char then true
+                   else match s with String d s' => Ascii.eqb c d && kmatch s' p' | EmptyString => false end
+  end.
+(* a finite relation as a matching function: n matches the patterns p1 and p2 (the shape of the
+   regular expressions in finding F06) *)
+Definition mfw (a b : string) : bool := String.eqb a "n" && (String.eqb b "p1" || String.eqb b "p2").
+
+(* F06 shape.  With a role matching function the answers are NOT a function of the stored links:
+   AddLink(x, n) followed by DeleteLink(x, n) leaves the links as they were, but the names x and n
+   stay registered in allRoles, n is matched against the patterns, and u now reaches admin
+   (u -> p1, n matches p1, n matches p2, p2 -> admin).  A rebuild (AddMatchingFunc) forgets them. *)
+Definition f06_ops : list rop := [RAddMF; RAdd "u" "p1"; RAdd "p2" "admin"; RAdd "x" "n"; RDel "x" "n"].
+Lemma lingering_names_refuted :
+  let s := rrun mfw 10 (new_rm false) f06_ops in
+  let s' := rm_add_matching_func mfw s in
+  links_of s = links_of s' /\
+  snd (has_link mfw 10 s "u" "admin") = true /\ snd (has_link mfw 10 s' "u" "admin") = false /\
+  map fst (m_all s) = ["u"; "p1"; "p2"; "admin"; "x"; "n"] /\ map fst (m_all s') = ["u"; "p1"; "p2"; "admin"].
+Proof. cbv zeta. repeat split; vm_compute; reflexivity. Qed.
+
+(* hence the guard `tight` (no lingering names) of has_link_links_only cannot be dropped *)
+Lemma has_link_links_only_refuted : exists s1 s2,
+  WF mfw s1 /\ WF mfw s2 /\ m_mf s1 = m_mf s2 /\ links_of s1 = links_of s2 /\
+  snd (has_link mfw 10 s1 "u" "admin") <> snd (has_link mfw 10 s2 "u" "admin").
+Proof.
+  exists (rrun mfw 10 (new_rm false) f06_ops), (rm_add_matching_func mfw (rrun mfw 10 (new_rm false) f06_ops)).
+  split; [apply rrun_WF_any; apply WF_new|]. split; [apply rm_add_matching_func_WF; apply rrun_WF_any; apply WF_new|].
+  destruct lingering_names_refuted as [H1 [H2 [H3 _]]]. cbv zeta in *.
+  split; [vm_compute; reflexivity|]. split; [exact H1|]. rewrite H2, H3. discriminate.
+Qed.
+
+(* F05 shape.  With a domain matching function DomainManager does NOT refine the domain-tagged link
+   set: [alice admin *] and [alice admin d1] are added, [alice admin *] is removed; the abstract
+   listing still holds (alice, admin, d1) but the structure lost the link in d1, because
+   DeleteLink ranges over every manager whose domain matches the pattern. *)
+Definition f05_ops : list dop := [DAddDMF; DAdd "alice" "admin" "*"; DAdd "alice" "admin" "d1"; DDel "alice" "admin" "*"].
+Lemma domain_pattern_delete_refuted :
+  adrun 10 [] f05_ops = [("alice", "admin", "d1")] /\
+  snd (dm_has_link no_mf kmatch 10 (drun no_mf kmatch 10 new_dm f05_ops) "alice" "admin" "d1") = false /\
+  Roles.has_link (adrun 10 [] f05_ops) "alice" "admin" "d1" = true.
+Proof. repeat split; vm_compute; reflexivity. Qed.
+
+(* the refinement theorems need their guard: a matching function breaks them even for plain names *)
+Lemma pattern_not_link_set_refuted :
+  let s := rrun kmatch 10 (new_rm false) [RAddMF; RAdd "u" "/a/*"; RAdd "/a/*" "r"] in
+  snd (has_link kmatch 10 s "/a/7" "r") = true /\
+  Roles.has_link (abs_rm "" s) "/a/7" "r" "" = false.
+Proof. cbv zeta. split; vm_compute; reflexivity. Qed.
+
+(* stale pointers are representable.  If removeRole is applied to a subject that still has members
+   (what a "drop the entry when it inherits nothing" DeleteLink would do), the member u keeps the id
+   of the OLD object X; a later AddLink(X, Y) creates a NEW object, and u does not reach Y although
+   u -> X and X -> Y are both stored; GetUsers(X) is empty.  Such a state violates WFs. *)
+Lemma stale_pointer_shape :
+  let s3 := rrun no_mf 10 (new_rm false) [RAdd "u" "X"; RAdd "X" "P"; RDel "X" "P"] in
+  let bad := add_link no_mf (remove_role s3 "X") "X" "Y" in
+  let good := add_link no_mf s3 "X" "Y" in
+  links_of bad = [("u", "X"); ("X", "Y")] /\ links_of good = [("u", "X"); ("X", "Y")] /\
+  snd (has_link no_mf 10 bad "u" "Y") = false /\ snd (has_link no_mf 10 good "u" "Y") = true /\
+  snd (get_users no_mf bad "X") = [] /\ snd (get_users no_mf good "X") = ["u"].
+Proof. cbv zeta. repeat split; vm_compute; reflexivity. Qed.
+
+(* non-vacuity: pattern reachability in action (KeyMatch) *)
+Example pattern_example :
+  let s := rrun kmatch 10 (new_rm false) [RAddMF; RAdd "u" "/a/*"; RAdd "/a/*" "r"] in
+  snd (has_link kmatch 10 s "u" "/a/1") = true /\ snd (has_link kmatch 10 s "/a/7" "r") = true /\
+  snd (has_link kmatch 10 s "/b/7" "r") = false /\ snd (get_roles kmatch s "/a/1") = ["r"].
+Proof. cbv zeta. repeat split; vm_compute; reflexivity. Qed.
+
+(* non-vacuity: a history with a cycle, a self link, a deletion, unknown names and Clear *)
+Example plain_example :
+  let ops := [RAdd "a" "b"; RAdd "b" "c"; RAdd "c" "a"; RAdd "a" "a"; RHas "z" "a"; RDel "b" "c"; RUsers "zz"] in
+  Forall plain_rop ops /\
+  snd (has_link no_mf 10 (rrun no_mf 10 (new_rm false) ops) "c" "b") = true /\
+  snd (has_link no_mf 10 (rrun no_mf 10 (new_rm false) ops) "a" "c") = false /\
+  arun 10 "" [] ops = [("a", "b", ""); ("c", "a", ""); ("a", "a", "")].
+Proof. cbv zeta. split; [repeat constructor|]. repeat split; vm_compute; reflexivity. Qed.
